@@ -141,3 +141,8 @@ package xreq
 //@   ensures result.Self == 48 && result.Peer == 49 && result.SelfName == "req" && result.PeerName == "rep"
 //@
 // ---- end generated Info contracts ----
+
+// ---- round 10 (C10 "later calls fail with a closed error"): Send on a closed socket ----
+//@ func (*socket).SendMsg
+//@   ghost cl = s.closed at call:Lock#1
+//@   ensures cl ==> result == protocol.ErrClosed
